@@ -58,17 +58,26 @@ pub open spec fn send_count(o: Seq<Ev>, f: Seq<Ev>) -> nat
 }
 pub open spec fn announces_le_8(o: Seq<Ev>, f: Seq<Ev>) -> bool { send_count(o, f) <= 8 }
 pub proof fn lemma_send_count_step(o: Seq<Ev>, m: Seq<Ev>, f: Seq<Ev>)
-    requires o.len() <= m.len(), extends(m, f), f.len() <= m.len() + 2, f.len() >= m.len() + 1, f[m.len() as int] is Send, f.len() == m.len() + 2 ==> !(f[m.len() as int + 1] is Send)
+    requires o.len() <= m.len(), extends(m, f), f.len() <= m.len() + 3, f.len() >= m.len() + 1, f[m.len() as int] is Send,
+        forall|i: int| m.len() < i < f.len() ==> !(#[trigger] f[i] is Send)
     ensures send_count(o, f) == send_count(o, m) + 1
 {
     let f1 = f.subrange(0, m.len() as int + 1);
     assert(f1.drop_last() =~= m);
     assert(f1.last() == f[m.len() as int]);
     assert(send_count(o, f1) == send_count(o, m) + 1);
-    if f.len() == m.len() + 2 {
-        assert(f.drop_last() =~= f1);
-        assert(f.last() == f[m.len() as int + 1]);
-        assert(send_count(o, f) == send_count(o, f1));
+    if f.len() >= m.len() + 2 {
+        let f2 = f.subrange(0, m.len() as int + 2);
+        assert(f2.drop_last() =~= f1);
+        assert(f2.last() == f[m.len() as int + 1]);
+        assert(send_count(o, f2) == send_count(o, f1));
+        if f.len() == m.len() + 3 {
+            assert(f.drop_last() =~= f2);
+            assert(f.last() == f[m.len() as int + 2]);
+            assert(send_count(o, f) == send_count(o, f2));
+        } else {
+            assert(f =~= f2);
+        }
     } else {
         assert(f =~= f1);
     }
@@ -341,6 +350,7 @@ impl TableLookup {
         ensures r.target_id == target_id, r.will_announce == will_announce, r.id_generator.action_id == id_generator.action_id, !r.in_endgame,
             r.announce_tokens@.len() == 0, // @C03.new_search_knows_no_token
             outstanding_ids_ok(r), // @C03.outstanding_ids_belong_to_this_search
+            marks_ok(old(tr).ev.push(Ev::LookupStart(target_id, will_announce)), final(tr).ev, true), // @C10.every_query_sent_is_recorded_on_the_queried_record
             !r.recv_values, // @C02.the_end_game_sweep_is_never_switched_off
             // C04: a new search is either finished at once (no good node could be asked) or kept going by pending timeouts
             wake_ok(r, *final(timer), None), // @C04.every_outstanding_query_has_a_pending_timeout
@@ -438,6 +448,7 @@ impl TableLookup {
         requires old(timer).wf()
         ensures only_requests_and_yields(old(tr).ev, final(tr).ev), no_yield(old(tr).ev, final(tr).ev), // @C03.request_round_only_queries
             outstanding_ids_ok(*old(self)) ==> outstanding_ids_ok(*final(self)), // @C03.outstanding_ids_belong_to_this_search
+            marks_ok(old(tr).ev, final(tr).ev, true), // @C10.every_query_sent_is_recorded_on_the_queried_record
             final(self).recv_values == old(self).recv_values, // @C02.the_end_game_sweep_is_never_switched_off
             // C04: every query registered by the round owns a pending 1.5 s timeout; older queries keep theirs; nobody else's timer entry is touched
             wake_ok(*old(self), *old(timer), None) ==> wake_ok(*final(self), *final(timer), None), // @C04.every_outstanding_query_has_a_pending_timeout
@@ -457,6 +468,7 @@ impl TableLookup {
         broadcast use vstd::std_specs::hash::group_hash_axioms, tid_key_model;
         proof { lemma_consts(); }
         let ghost ev0 = tr.ev;
+        proof { lemma_marks_refl(ev0, true); }
         // Loop through the given nodes
         let mut messages_sent = 0;
         let ghost mut sent_at: int = 0;
@@ -464,6 +476,7 @@ impl TableLookup {
         loop
             invariant only_requests_and_yields(ev0, tr.ev), no_yield(ev0, tr.ev), // @C03.request_round_only_queries
                 outstanding_ids_ok(*old(self)) ==> outstanding_ids_ok(*self), // @C03.outstanding_ids_belong_to_this_search
+                marks_ok(ev0, tr.ev, true), // @C10.every_query_sent_is_recorded_on_the_queried_record
                 self.recv_values == old(self).recv_values, // @C02.the_end_game_sweep_is_never_switched_off
                 timer.wf(), timer.next_id >= old(timer).next_id,
                 wake_ok(*old(self), *old(timer), None) ==> wake_ok(*self, *timer, None), // @C04.every_outstanding_query_has_a_pending_timeout
@@ -529,16 +542,28 @@ impl TableLookup {
 
             let ghost evs = tr.ev;
             if let Err(error) = socket.send(&get_peers_msg, node.addr, Tracked(tr)) {
+                proof { lemma_marks_other(ev0, evs, Ev::Send(get_peers_msg, node.addr), true); }
                 continue;
             }
-            proof { sent_at = evs.len() as int; }
+            proof { sent_at = evs.len() as int; lemma_marks_other(ev0, evs, Ev::Send(get_peers_msg, node.addr), true); }
 
             // We requested from the node, mark it down
             self.requested_nodes.insert(*node);
 
             // Update the node in the routing table
+            let ghost evf = tr.ev;
             if let Some(n) = self.table.lock().unwrap().find_node_mut(node, Tracked(tr)) {
-                n.local_request()
+                n.local_request(Tracked(tr))
+            }
+            proof {
+                let k = evf.len() as int;
+                if tr.ev.len() == k + 2 && extends(evf, tr.ev) && tr.ev[k] == Ev::TableFind(*node, true) && tr.ev[k + 1] == Ev::Mark(*node, true) {
+                    lemma_marks_hit(ev0, evf, *node, true);
+                    assert(tr.ev =~= evf.push(Ev::TableFind(*node, true)).push(Ev::Mark(*node, true)));
+                } else if tr.ev.len() == k + 1 && extends(evf, tr.ev) && tr.ev[k] == Ev::TableFind(*node, false) {
+                    lemma_marks_miss(ev0, evf, *node, true);
+                    assert(tr.ev =~= evf.push(Ev::TableFind(*node, false)));
+                }
             }
 
             proof {
@@ -566,6 +591,7 @@ impl TableLookup {
         requires old(timer).wf()
         ensures only_requests_and_yields(old(tr).ev, final(tr).ev), no_yield(old(tr).ev, final(tr).ev), // @C03.endgame_round_only_queries
             outstanding_ids_ok(*old(self)) ==> outstanding_ids_ok(*final(self)), // @C03.outstanding_ids_belong_to_this_search
+            marks_ok(old(tr).ev, final(tr).ev, true), // @C10.every_query_sent_is_recorded_on_the_queried_record
             final(self).recv_values == old(self).recv_values, // @C02.the_end_game_sweep_is_never_switched_off
             // C04: entering the end-game schedules the 1.5 s end-game timeout of this search that will finish it
             final(self).in_endgame && wake_ok(*final(self), *final(timer), None), // @C04.end_game_has_a_pending_timeout
@@ -581,6 +607,7 @@ impl TableLookup {
         broadcast use vstd::std_specs::hash::group_hash_axioms, tid_key_model;
         proof { lemma_consts(); }
         let ghost ev0 = tr.ev;
+        proof { lemma_marks_refl(ev0, true); }
         // Entering the endgame phase
         self.in_endgame = true;
 
@@ -598,6 +625,7 @@ impl TableLookup {
             loop
                 invariant only_requests_and_yields(ev0, tr.ev), no_yield(ev0, tr.ev), // @C03.endgame_round_only_queries
                     outstanding_ids_ok(*old(self)) ==> outstanding_ids_ok(*self), // @C03.outstanding_ids_belong_to_this_search
+                    marks_ok(ev0, tr.ev, true), // @C10.every_query_sent_is_recorded_on_the_queried_record
                 self.recv_values == old(self).recv_values, // @C02.the_end_game_sweep_is_never_switched_off
                     self.in_endgame, *timer == tm1,
                     no_new_refresh(*old(timer), *timer),
@@ -636,13 +664,27 @@ impl TableLookup {
                     assert forall|t: TransactionID| #[trigger] t.bytes@ == get_peers_msg.transaction_id@ implies t == trans_id by { assert(t.bytes =~= trans_id.bytes); }
                 }
 
+                let ghost evs = tr.ev;
                 if let Err(error) = socket.send(&get_peers_msg, node.addr, Tracked(tr)) {
+                    proof { lemma_marks_other(ev0, evs, Ev::Send(get_peers_msg, node.addr), true); }
                     continue;
                 }
+                proof { lemma_marks_other(ev0, evs, Ev::Send(get_peers_msg, node.addr), true); }
 
                 // Mark that we requested from the node in the RoutingTable
+                let ghost evf = tr.ev;
                 if let Some(n) = self.table.lock().unwrap().find_node_mut(node, Tracked(tr)) {
-                    n.local_request()
+                    n.local_request(Tracked(tr))
+                }
+                proof {
+                    let k = evf.len() as int;
+                    if tr.ev.len() == k + 2 && extends(evf, tr.ev) && tr.ev[k] == Ev::TableFind(*node, true) && tr.ev[k + 1] == Ev::Mark(*node, true) {
+                        lemma_marks_hit(ev0, evf, *node, true);
+                        assert(tr.ev =~= evf.push(Ev::TableFind(*node, true)).push(Ev::Mark(*node, true)));
+                    } else if tr.ev.len() == k + 1 && extends(evf, tr.ev) && tr.ev[k] == Ev::TableFind(*node, false) {
+                        lemma_marks_miss(ev0, evf, *node, true);
+                        assert(tr.ev =~= evf.push(Ev::TableFind(*node, false)));
+                    }
                 }
 
                 // Mark that we requested from the node
@@ -675,6 +717,7 @@ impl TableLookup {
             old(self).active_lookups@.contains_key(*trans_id) ==> final(self).announce_tokens@ == (if msg.token is Some { old(self).announce_tokens@.insert(node.handle, msg.token->0) } else { old(self).announce_tokens@ }), // @C03.latest_token_recorded_under_responder @C01.latest_token_recorded_under_responder @C02.latest_token_recorded_under_responder
             no_replies(old(tr).ev, final(tr).ev), only_requests_and_yields(old(tr).ev, final(tr).ev), // @C05.responses_never_answered
             outstanding_ids_ok(*old(self)) ==> outstanding_ids_ok(*final(self)), // @C03.outstanding_ids_belong_to_this_search
+            marks_ok(old(tr).ev, final(tr).ev, true), // @C10.every_query_sent_is_recorded_on_the_queried_record
             final(self).recv_values == old(self).recv_values, // @C02.the_end_game_sweep_is_never_switched_off
             // C04: the search reports Completed only when no query is outstanding and no end-game is running; as long as it goes on it cannot get stuck
             res == status_of(*final(self)), // @C04.completed_only_without_outstanding_query_and_outside_the_end_game
@@ -693,6 +736,7 @@ impl TableLookup {
     {
         broadcast use vstd::std_specs::hash::group_hash_axioms, nodehandle_key_model, tid_key_model;
         let ghost ev0 = tr.ev;
+        proof { lemma_marks_refl(ev0, true); }
         // Process the message transaction id
         let (dist_to_beat, timeout) = if let Some(lookup) = self.active_lookups.remove(trans_id) {
             lookup
@@ -803,13 +847,17 @@ impl TableLookup {
                     .iter()
                     .filter(|p: &&(NodeHandle, bool)| -> (b: bool) { { let (_, good) = p; *good } })
                     .map(|p: &(NodeHandle, bool)| -> (q: (&NodeHandle, DistanceToBeat)) { { let (n, _) = p; (n, next_dist_to_beat) } });
+                let ghost evr = tr.ev;
                 self.start_request_round(filtered_nodes, socket, timer, Tracked(tr))
                     ;
+                proof { lemma_marks_trans(ev0, evr, tr.ev, true); }
             }
 
             // If there are not more active lookups, start the endgame
             if self.active_lookups.is_empty() {
+                let ghost eve = tr.ev;
                 self.start_endgame_round(socket, timer, Tracked(tr));
+                proof { lemma_marks_trans(ev0, eve, tr.ev, true); }
             }
         }
 
@@ -832,6 +880,7 @@ impl TableLookup {
                 self.announce_tokens == ann1, // @C03.latest_token_recorded_under_responder @C01.latest_token_recorded_under_responder @C02.latest_token_recorded_under_responder
                  self.will_announce == old(self).will_announce, self.target_id == old(self).target_id, self.this_node_id == old(self).this_node_id,
                 *timer == tm1, self.id_generator.action_id == old(self).id_generator.action_id, extends(ev1, tr.ev),
+                marks_ok(ev0, tr.ev, true), // @C10.every_query_sent_is_recorded_on_the_queried_record
                 forall|i: int| ev1.len() <= i < tr.ev.len() ==> !(#[trigger] tr.ev[i] is Send),
         {
             let ghost k = it.index@;
@@ -839,6 +888,7 @@ impl TableLookup {
             let vx_ret = self.tx.send(value, Tracked(tr)).unwrap_or(());
             proof {
                 lemma_yields_push(evb, Ev::Yield(value));
+                lemma_marks_other(ev0, evb, Ev::Yield(value), true);
                 assert(vals.take(k + 1) =~= vals.take(k as int).push(vals[k as int]));
                 assert(yields(ev0) + vals.take(k + 1) =~= (yields(ev0) + vals.take(k as int)).push(value));
             }
@@ -863,6 +913,7 @@ impl TableLookup {
             !old(self).active_lookups@.contains_key(*trans_id) ==> final(tr).ev == old(tr).ev && *final(timer) == *old(timer) && final(self).active_lookups@ == old(self).active_lookups@, // @C03.unknown_timeout_changes_nothing
             only_requests_and_yields(old(tr).ev, final(tr).ev), no_yield(old(tr).ev, final(tr).ev), // @C03.timeouts_yield_nothing
             outstanding_ids_ok(*old(self)) ==> outstanding_ids_ok(*final(self)), // @C03.outstanding_ids_belong_to_this_search
+            marks_ok(old(tr).ev, final(tr).ev, true), // @C10.every_query_sent_is_recorded_on_the_queried_record
             final(self).recv_values == old(self).recv_values, // @C02.the_end_game_sweep_is_never_switched_off
             // C04: `trans_id` is the query whose timeout has just fired (the fired entry is gone from the timer)
             res == status_of(*final(self)), // @C04.completed_only_without_outstanding_query_and_outside_the_end_game
@@ -877,6 +928,7 @@ impl TableLookup {
             forall|i: int| old(tr).ev.len() <= i < final(tr).ev.len() && #[trigger] final(tr).ev[i] is Send ==> blen(final(tr).ev[i]->Send_0) <= 1500, // @C17.lookup_queries_fit_1500_bytes
     {
         broadcast use vstd::std_specs::hash::group_hash_axioms, tid_key_model;
+        proof { lemma_marks_refl(tr.ev, true); }
         if self.active_lookups.remove(trans_id).is_none() {
             return self.current_lookup_status();
         }
@@ -910,6 +962,7 @@ impl TableLookup {
             // (latest recorded) token, the searched info-hash, our id, the configured port and an 8-byte transaction id of this search
             forall|i: int| old(tr).ev.len() <= i < final(tr).ev.len() && #[trigger] final(tr).ev[i] is Send ==> announce_ok(*old(self), port, final(tr).ev[i]), // @C03.announce_only_to_token_holders_with_their_token @C01.announce_only_to_token_holders_with_their_token @C02.announce_only_to_token_holders_with_their_token
             only_requests_and_yields(old(tr).ev, final(tr).ev), no_yield(old(tr).ev, final(tr).ev), // @C03.finishing_yields_nothing
+            marks_ok(old(tr).ev, final(tr).ev, true), // @C10.every_query_sent_is_recorded_on_the_queried_record
             (forall|h: NodeHandle| #[trigger] old(self).announce_tokens@.contains_key(h) ==> old(self).announce_tokens@[h]@.len() <= 1300) ==> forall|i: int| old(tr).ev.len() <= i < final(tr).ev.len() && #[trigger] final(tr).ev[i] is Send ==> blen(final(tr).ev[i]->Send_0) <= 1500, // @C17.announce_queries_fit_1500_bytes_when_the_remote_token_is_at_most_1300_bytes
             // the unconditional statement (recorded known finding: a token of 1366..1435 bytes arrives in a response that fits 1500 bytes, the announce echoing it does not)
             (forall|h: NodeHandle| #[trigger] old(self).announce_tokens@.contains_key(h) ==> 60 + bstr(old(self).announce_tokens@[h]@.len() as nat) <= 1500) ==> forall|i: int| old(tr).ev.len() <= i < final(tr).ev.len() && #[trigger] final(tr).ev[i] is Send ==> blen(final(tr).ev[i]->Send_0) <= 1500, // @C17.announce_queries_fit_1500_bytes
@@ -918,6 +971,7 @@ impl TableLookup {
         broadcast use vstd::std_specs::hash::group_hash_axioms, nodehandle_key_model, tid_key_model;
         proof { lemma_consts(); }
         let ghost ev0 = tr.ev;
+        proof { lemma_marks_refl(ev0, true); }
         // Announce if we were told to
         if self.will_announce {
             // Partial borrow so the filter function doesnt capture all of self
@@ -928,12 +982,13 @@ impl TableLookup {
                 .iter()
                 .filter(|p: &&(Distance, NodeHandle, bool)| -> (b: bool) ensures b == announce_tokens@.contains_key(p.1) { { let (_, node, _) = p; announce_tokens.contains_key(node) } })
                 .take(ANNOUNCE_PICK_NUM)
-                invariant it.index@ <= 8, tr.ev.len() == ev0.len() + 2 * it.index@ || tr.ev.len() < ev0.len() + 2 * it.index@, ev0.len() <= tr.ev.len(),
+                invariant it.index@ <= 8, tr.ev.len() <= ev0.len() + 3 * it.index@, ev0.len() <= tr.ev.len(),
                     send_count(ev0, tr.ev) <= it.index@,
                     announce_tokens@ == old(self).announce_tokens@, self.this_node_id == old(self).this_node_id, self.target_id == old(self).target_id,
                     self.id_generator.action_id == old(self).id_generator.action_id,
                     forall|i: int| ev0.len() <= i < tr.ev.len() && #[trigger] tr.ev[i] is Send ==> announce_ok(*old(self), port, tr.ev[i]),
                     only_requests_and_yields(ev0, tr.ev), no_yield(ev0, tr.ev),
+                    marks_ok(ev0, tr.ev, true), // @C10.every_query_sent_is_recorded_on_the_queried_record
                     (forall|h: NodeHandle| #[trigger] old(self).announce_tokens@.contains_key(h) ==> old(self).announce_tokens@[h]@.len() <= 1300) ==> forall|i: int| ev0.len() <= i < tr.ev.len() && #[trigger] tr.ev[i] is Send ==> blen(tr.ev[i]->Send_0) <= 1500, // @C17.announce_queries_fit_1500_bytes_when_the_remote_token_is_at_most_1300_bytes
                     (forall|h: NodeHandle| #[trigger] old(self).announce_tokens@.contains_key(h) ==> 60 + bstr(old(self).announce_tokens@[h]@.len() as nat) <= 1500) ==> forall|i: int| ev0.len() <= i < tr.ev.len() && #[trigger] tr.ev[i] is Send ==> blen(tr.ev[i]->Send_0) <= 1500, // @C17.announce_queries_fit_1500_bytes
             {
@@ -955,12 +1010,25 @@ impl TableLookup {
 
                 match socket.send(&announce_peer_msg, node.addr, Tracked(tr)) {
                     Ok(()) => {
+                        proof { lemma_marks_other(ev0, evb, Ev::Send(announce_peer_msg, node.addr), true); }
+                        let ghost evf = tr.ev;
                         // We requested from the node, marke it down if the node is in our routing table
                         if let Some(n) = self.table.lock().unwrap().find_node_mut(node, Tracked(tr)) {
-                            n.local_request()
+                            n.local_request(Tracked(tr))
+                        }
+                        proof {
+                            let k = evf.len() as int;
+                            if tr.ev.len() == k + 2 && extends(evf, tr.ev) && tr.ev[k] == Ev::TableFind(*node, true) && tr.ev[k + 1] == Ev::Mark(*node, true) {
+                                lemma_marks_hit(ev0, evf, *node, true);
+                                assert(tr.ev =~= evf.push(Ev::TableFind(*node, true)).push(Ev::Mark(*node, true)));
+                            } else if tr.ev.len() == k + 1 && extends(evf, tr.ev) && tr.ev[k] == Ev::TableFind(*node, false) {
+                                lemma_marks_miss(ev0, evf, *node, true);
+                                assert(tr.ev =~= evf.push(Ev::TableFind(*node, false)));
+                            }
                         }
                     }
                     Err(error) => {
+                        proof { lemma_marks_other(ev0, evb, Ev::Send(announce_peer_msg, node.addr), true); }
                         ()
                     }
                 }
